@@ -164,6 +164,39 @@ def rule_value_fallback(ctx, fx, config, prop="C16"):
               "next_value_seed reads a value without pointing the fallback location at it: a location-less Serde error for the value (`n: 0` into NonZeroU32) is reported at the key", config, ctx.where(f))
 
 
+def rule_use_site_read_is_fresh(ctx, fx, config):
+    """USE-SITE:read-is-fresh — `reference_location()` names the node that is *about to be* consumed: the lookahead filled by
+    `peek()`, or the alias frame serving it.  Read after the node was consumed (capture_node / next) and before the next
+    `peek()`, it names whatever the source saw last — for an inline node the end of that node, not where it is used.  No path
+    from a consuming call reaches a use-site read without passing a `peek()`."""
+    n = 0
+    for f in sorted(fx.fns.values(), key=lambda g: g.npath):
+        if not (f.file.endswith("src/de.rs") or "spanned" in f.file):
+            continue
+        refs = [b for b, t in f.calls() if last_seg(fx.callee_decl(t)) == "reference_location"]
+        if not refs:
+            continue
+        n += 1
+        ctx.saw(f)
+        caps = [b for b, t in f.calls() if fx.callee(t).endswith("capture_node") or (last_seg(fx.callee_decl(t)) == "next" and "Events" in fx.callee_decl(t))]
+        peeks = {b for b, t in f.calls() if last_seg(fx.callee_decl(t)) == "peek" and "Events" in fx.callee_decl(t)}
+        stale = []
+        for c in caps:
+            seen, st = set(), list(f.succ[c])
+            while st:
+                x = st.pop()
+                if x in seen or x in peeks:
+                    continue
+                seen.add(x)
+                if x in refs:
+                    stale.append(f.blocks[x]["term"].get("ln"))
+                    continue
+                st.extend(f.succ[x])
+        ctx.check(not stale, "USE-SITE", "C16:USE-SITE:read-is-fresh:%s" % f.name, "every use-site read follows a peek() of the node it is about",
+                  "%s reads reference_location() (line %s) after the node was consumed and before the next peek(): for an inline node the read names the end of that node instead of its use site" % (f.name, sorted(set(stale))), config, ctx.where(f))
+    ctx.floor("USE-SITE.reading-functions", n, 8, config)
+
+
 def run(ctx):
     for config in ctx.configs:
         fx = ctx.facts(config)
@@ -172,6 +205,7 @@ def run(ctx):
         rule_replay_reference_threaded(ctx, fx, config)
         rule_dual_only_when_sites_differ(ctx, fx, config)
         rule_value_fallback(ctx, fx, config)
+        rule_use_site_read_is_fresh(ctx, fx, config)
         a = fx.fn("location::location_from_span")
         b_ = fx.fn("de_error::Error::from_scan_error")
         ra = check_ctor(ctx, fx, config, a, "span.start")
